@@ -54,6 +54,14 @@ int act (string arg) {
   return 1;
 }
 
+// present() asks every member of an inventory; an object answers to its own harness id
+int id (string s) {
+  VL ("hb " + oid + " id 0");
+  run ("id", 0);
+  VL ("he " + oid + " id");
+  return s == oid;
+}
+
 void x_aa (string verb) { add_action ("act", verb); }
 int x_cmd (string verb) { return command (verb); }
 void x_mv (object d) { move_object (d); }
